@@ -284,7 +284,25 @@ def r3b(repo, run):
             want = dict(func='f', merged=True, cleared=False, raised=None)
             if got != want:
                 bad.append(('plain mapping onto a function node', a, b, None, got, want))
-    run.table('C13.R3', rows, 'function-node merge over (target same/other/none) x priorities x delete flag')
+    # a string merged onto a function node names a new target: it is adopted (old arguments dropped) when the string wins
+    for a in PRIOS:
+        for b in PRIOS:
+            me = node_obj('self', 'CallNode', _priority=a, _func='f', _children={'x': node_obj('x')})
+            ot = node_obj('other', 'XRefNode', _priority=b)
+            log = []
+
+            def stub3(name, recv, args, kwargs, log=log):
+                log.append((name, getattr(recv, 'name', None)))
+                return recv
+            f = FDE(repo, stubs={'on_merge_impl', 'clear', '_replace_self', '_replace_other', '_maybe_promote', '_propagate_implicit_values', '_propagate_priority'}, stub=stub3)
+            r = fde_guard(lambda: f.call(fi, me, 'p', ot))
+            rows += 1
+            wins = mt.P(b) >= mt.P(a)
+            got = dict(func='other' if me.f.get('_func') is ot else me.f.get('_func'), cleared=('clear', 'self') in log, raised=r.raised, ret=getattr(r.ret, 'name', r.ret))
+            want = dict(func='other' if wins else 'f', cleared=wins, raised=None, ret='self')
+            if got != want:
+                bad.append(('a string (new target name) onto a function node', a, b, None, got, want))
+    run.table('C13.R3', rows, 'function-node merge over (target same/other/none/string) x priorities x delete flag')
     if bad:
         t, a, b, d, got, want = bad[0]
         run.violation('C13.R3', fi, 'function-node merge table', '%s, older priority %r, newer priority %r, newer delete=%r: %s; expected %s (a losing node with another target must be ignored entirely - its arguments would be passed to the kept target)' % (t, a, b, d, got, want), witness=[str(x) for x in bad[:5]])
